@@ -413,6 +413,7 @@ def parse_module(path):
                     dbg = md.group(1)
                 cur = Function(name, rt, plist, dbg)
                 cur.module = m
+                cur.internal = bool(re.search(r'\b(internal|private)\b', head))
                 # entry label: the number following the last unnamed param
                 nums = [int(p.name[1:]) for p in plist if p.kind == 'reg' and p.name[1:].isdigit()]
                 entry = str((max(nums) + 1) if nums else (len(plist)))
